@@ -19,6 +19,13 @@ def queries(tier):
                     unwind={"memcpy": 14, "memset": 14, "memmove": 14, "strlen": 4, "shape": 6, "names": 6},
                     bounds="%d nodes in every well-formed forest shape (links symbolic), names from {a,b,''}; one %s with position -3..3" % (nn, op),
                     outside="more than %d nodes; histories" % nn))
+    if tier == "thorough":   # 4-node concrete family still exceeds 240 s (identifier compare under recursion): thorough tier only
+      qs.append(Q("node_move_merge", "C14/nodes.c", units=UNITS, harness_defines={"OP": "OP_MOVE", "NN": 4, "V_NMAX": 96, "MOVE_SHAPE": 1},
+                unwind_default=7, flags=["--memory-leak-check", "--max-field-sensitivity-array-size", "200"],
+                fp=[(r"getnode", ["verif_gnode_pos_u", "node_locate"])], stubs=["libc.c", "no_traits.c", "libc_loops.c"],
+                unwind={"memcpy": 14, "memset": 14, "memmove": 14, "strlen": 4, "shape": 6, "names": 6, "memcmp": 5},
+                bounds="mpt_node_move of a source list into a one-element target list: source head with one child plus a fourth node that is (symbolic) second child of the source head, child of the target head (recursive merge) or second source element; names from {a,b,''} symbolic, so both the 'move whole node' and the 'adopt / merge children' branches are reached",
+                outside="more than 4 nodes; target lists longer than one element (thorough node_move covers symbolic shapes)", timeout=1500))
     qs.append(Q("node_locate_nul_names", "C14/nodes.c", units=UNITS, harness_defines={"OP": "OP_LOCATE", "NN": 3, "V_NMAX": 96, "NUL_NAMES": 1},
                 unwind_default=6, flags=["--memory-leak-check", "--max-field-sensitivity-array-size", "200"],
                 fp=[(r"getnode", ["verif_gnode_pos_u", "node_locate"])], stubs=["libc.c", "no_traits.c", "libc_loops.c"],
